@@ -47,7 +47,7 @@ func genProtoPlan(seed uint64, thorough bool) *Plan {
 			c = g.expireCmd(simEpochNs)
 		case 11:
 			c = g.pick2([][]string{{"HGETALL", g.key()}, {"SMEMBERS", g.key()}, {"HRANDFIELD", g.key(), "3", "WITHVALUES"}, {"HRANDFIELD", g.key(), g.pick("-4", "-7", "-1"), "WITHVALUES"}, {"HRANDFIELD", g.key(), g.pick("-5", "2")}, {"SRANDMEMBER", g.key(), g.pick("-6", "3")},
-				{"HINCRBYFLOAT", g.key(), "big", g.pick("100000001", "16777217", "0.1", "1e15")}, {"INCRBYFLOAT", g.key(), g.pick("100000001.5", "16777217")}, {"LCS", g.key(), g.key(), "IDX"}, {"INCRBYFLOAT", g.key(), "1.5"}, {"HINCRBYFLOAT", g.key(), "f1", "0.25"}, {"CLIENT", "INFO"}, {"COMMAND", "COUNT"}, {"SMISMEMBER", g.key(), "m1", "m2"}, {"EXISTS", g.key()}, {"TYPE", g.key()}, {"PING"}, {"ECHO", "x"}, {"CLIENT", "GETNAME"}, {"SISMEMBER", g.key(), "m1"},
+				{"HINCRBYFLOAT", g.key(), "big", g.pick("100000001", "16777217", "0.1", "1e15")}, {"INCRBYFLOAT", g.key(), g.pick("100000001.5", "16777217")}, {"LCS", g.key(), g.key(), "IDX"}, {"INCRBYFLOAT", g.key(), "1.5"}, {"HINCRBYFLOAT", g.key(), "f1", "0.25"}, {"CLIENT", "INFO"}, {"CLIENT", "LIST"}, {"INFO"}, {"INFO", "server"}, {"INFO", "clients"}, {"COMMAND", "COUNT"}, {"SMISMEMBER", g.key(), "m1", "m2"}, {"EXISTS", g.key()}, {"TYPE", g.key()}, {"PING"}, {"ECHO", "x"}, {"CLIENT", "GETNAME"}, {"SISMEMBER", g.key(), "m1"},
 				// nested aggregates: map -> array -> map
 				{"COMMAND", "DOCS", g.pick("get", "set", "hello", "client", "lpos", "sort", "bitfield", "nosuchcmd")}, {"COMMAND", "INFO", g.pick("get", "lmpop", "client", "exec")},
 				{"COMMAND", "DOCS", g.pick("hset", "sintercard"), g.pick("lrange", "expire")}, {"COMMAND", "LIST", "FILTERBY", "PATTERN", g.pick("h*", "s[a-m]*", "client*")}, {"COMMAND", "GETKEYS", "MSET", "a", "1", "b", "2"}})
@@ -60,7 +60,7 @@ func genProtoPlan(seed uint64, thorough bool) *Plan {
 			c = []string{"LLEN", g.key()}
 		}
 		if hooked && g.chance(6) {
-			c = []string{"ECHO", g.pick("hook:map", "hook:double", "hook:bool", "hook:set", "hook:list", "plain")}
+			c = []string{"ECHO", g.pick("hook:map", "hook:double", "hook:bool", "hook:set", "hook:list", "plain", "hook:set2", "hook:map2")}
 		}
 		it := Item{Args: bs(c...)}
 		a = append(a, it)
@@ -138,6 +138,10 @@ func (g *Gen) helloArgs() []string {
 	case 6:
 		return []string{"HELLO", g.pick("x", "3.0", "")}
 	case 7:
+		if g.chance(3) {
+			// (text of more bytes than characters: lengths on the wire are byte lengths)
+			return []string{"HELLO", g.pick("2", "3"), "SETNAME", g.pick("caf\u00e9", "\u65e5\u672c-"+strconv.Itoa(g.r.IntN(9)), "n\u20ac")}
+		}
 		return []string{"HELLO", g.pick("2", "3"), "SETNAME", "n" + strconv.Itoa(g.r.IntN(9))}
 	default:
 		return []string{"HELLO", g.pick("2", "3", "5"), "SETNAME", "bad name"}
@@ -158,9 +162,10 @@ type protoChecker struct {
 }
 
 type queuedCmd struct {
-	hello bool
-	valid bool
-	want  int // protocol a valid HELLO switches to; 0 = stays
+	hello   bool
+	lenient bool // either outcome is fine (a name outside printable ASCII)
+	valid   bool
+	want    int // protocol a valid HELLO switches to; 0 = stays
 }
 
 func newProtoChecker(p *Plan) Checker {
@@ -344,6 +349,10 @@ func (c *protoChecker) OnReply(w *World, op *Op) *Violation {
 					}
 					c.proto[op.Client] = qc.want
 				}
+				if qc.valid && qc.lenient && op.Reply.A[i].IsErr() {
+					v.A[i] = Value{K: KNil}
+					continue
+				}
 				if qc.valid && op.Reply.A[i].IsErr() {
 					return &Violation{Oracle: "hello", Step: w.step, Fp: "hello:refused-valid:exec",
 						Msg: fmt.Sprintf("client %d: element %d of EXEC is the reply of a valid HELLO, got %s", op.Client, i, clipS(op.Reply.A[i].String(), 120))}
@@ -362,6 +371,7 @@ func (c *protoChecker) OnReply(w *World, op *Op) *Violation {
 			if cmd == "hello" {
 				qc.hello = true
 				qc.want, qc.valid = helloWants(argv, 0) // 0: no version given, the protocol stays
+				qc.lenient = nonASCII(argv)
 			}
 			c.queued[op.Client] = append(c.queued[op.Client], qc)
 		}
@@ -373,6 +383,11 @@ func (c *protoChecker) OnReply(w *World, op *Op) *Violation {
 	// (2) HELLO switches exactly this connection, and only when valid
 	if strings.EqualFold(argv[0], "hello") {
 		want, valid := helloWants(argv, p)
+		if valid && nonASCII(argv) && op.Reply.IsErr() {
+			// a name outside printable ASCII: Redis refuses it, an implementation
+			// may accept it; the reply decides
+			return nil
+		}
 		if !valid {
 			if !op.Reply.IsErr() {
 				return &Violation{Oracle: "hello", Step: w.step, Fp: "hello:accepted-invalid",
@@ -517,6 +532,17 @@ func looseEqual(a, b Value) bool {
 			}
 		}
 		return true
+	}
+	return false
+}
+
+func nonASCII(argv []string) bool {
+	for _, a := range argv {
+		for i := 0; i < len(a); i++ {
+			if a[i] > 126 {
+				return true
+			}
+		}
 	}
 	return false
 }
